@@ -666,9 +666,9 @@ class FileCache:
         Return size on disk of the cache in bytes.
         :return: cache size in bytes.
         """
-        return _get_total_size_of_files_in_bytes(
-            list(self._entries.values()), self.path
-        )
+        # entries hold file paths (not bare names): joining them onto a relative
+        # cache path again would point at files that do not exist (size 0).
+        return _get_total_size_of_files_in_bytes(list(self._entries.values()))
 
     def purge(self) -> None:
         """
